@@ -21,6 +21,7 @@
        The loops over an array with a code body - forEach, count, apply, select, findIf - are covered as well
        (C02_vm_runs_loops, C02_ref_runs_loops): one scope per element, the loop frame reused and reset by the pass that
        goes round, the accumulator of each kind, findIf's early stop, exitWith in the body ending the whole loop.
+       Lazy && / and / || / or with a code block on the right are constructors of the same relation (ZLazySkip, ZLazyEnter).
        NOT covered by the simulation: while and for, switch,
        exitWith inside an operand, breakOut, try / catch / throw, waitUntil, nil operands - for these the
        per-construct theorems below and the program-level differential are the evidence;
